@@ -90,7 +90,7 @@ const (
 	smErrCtx = 6
 )
 
-func b2i(b bool) int {
+func smB2i(b bool) int {
 	if b {
 		return 1
 	}
@@ -157,7 +157,7 @@ func (c *smCase) step(op, res string, frames []quic.VerifSMFrame, human string) 
 	c.desc = append(c.desc, human+"=>"+res)
 	for _, f := range frames {
 		c.nframes++
-		t := b2i(f.Uni)
+		t := smB2i(f.Uni)
 		switch {
 		case f.Other:
 			c.monfail("frame/unexpected-type", "streams map queued a frame that is neither MAX_STREAMS nor STREAMS_BLOCKED")
@@ -185,7 +185,7 @@ func (c *smCase) step(op, res string, frames []quic.VerifSMFrame, human string) 
 
 // a locally opened stream was returned to a caller
 func (c *smCase) monOpened(uni bool, id int64, what string) {
-	t := b2i(uni)
+	t := smB2i(uni)
 	want := smFirst(uni, c.client) + 4*c.openedOut[t]
 	if id != want {
 		c.monfail("open/id-sequence", fmt.Sprintf("%s returned stream %d, expected %d (first+4k)", what, id, want))
@@ -298,7 +298,7 @@ func (c *smCase) collect(frameFrom, createdFrom int) {
 }
 
 func (c *smCase) monAccepted(uni bool, id int64) {
-	t := b2i(uni)
+	t := smB2i(uni)
 	want := smFirst(uni, !c.client) + 4*c.accepted[t]
 	if id != want {
 		c.monfail("accept/order", fmt.Sprintf("AcceptStream returned stream %d, expected %d (each stream once, in ID order)", id, want))
@@ -380,7 +380,7 @@ func (h *smHookCtx) Value(any) any { return nil }
 func (c *smCase) tryRace() bool {
 	r, v := c.r, c.v
 	uni := r.Bool()
-	t := b2i(uni)
+	t := smB2i(uni)
 	out := v.SnapOut(uni)
 	if c.closed || c.reset || len(out.Queue) != 0 || out.Closed || c.openedOut[t] < c.peerMax[t] {
 		return false
@@ -526,7 +526,7 @@ func (c *smCase) monDelete(id int64, e int) {
 	}
 	uni := id%4 >= 2
 	local := (id%2 == 0) == c.client
-	t := b2i(uni)
+	t := smB2i(uni)
 	n := c.peerOpen[t]
 	if local {
 		n = c.openedOut[t]
@@ -566,7 +566,7 @@ func (c *smCase) monSpuriousBlocked(fr []quic.VerifSMFrame) {
 // C15(b): whenever opening fails or blocks because of the peer's limit, a STREAMS_BLOCKED for
 // that limit has been queued (now or earlier).
 func (c *smCase) blockedCheck(uni bool, what string, _ []quic.VerifSMFrame) {
-	t := b2i(uni)
+	t := smB2i(uni)
 	if !c.blockedAt[t][c.peerMax[t]] {
 		c.monfail("blocked/missing", fmt.Sprintf("%s at limit %d but no STREAMS_BLOCKED was queued for that limit", what, c.peerMax[t]))
 	}
@@ -799,8 +799,8 @@ func (c *smCase) doOp() {
 				c.monfail("fifo/overtaken-by-open", fmt.Sprintf("OpenStream returned stream %d while OpenStreamSync callers are waiting", id))
 			}
 			c.monOpened(uni, id, "OpenStream")
-		} else if e == smErrLimitReached && len(c.parkedWaiters(uni)) == 0 && c.openedOut[b2i(uni)] < c.peerMax[b2i(uni)] {
-			c.monfail("open/refused-below-limit", fmt.Sprintf("OpenStream failed with %d of %d streams opened and nobody waiting", c.openedOut[b2i(uni)], c.peerMax[b2i(uni)]))
+		} else if e == smErrLimitReached && len(c.parkedWaiters(uni)) == 0 && c.openedOut[smB2i(uni)] < c.peerMax[smB2i(uni)] {
+			c.monfail("open/refused-below-limit", fmt.Sprintf("OpenStream failed with %d of %d streams opened and nobody waiting", c.openedOut[smB2i(uni)], c.peerMax[smB2i(uni)]))
 		}
 		c.step(u.App("OOpen", u.B(uni)), smRes(id, e, false), fr, fmt.Sprintf("open(%v)", uni))
 		if e == smErrLimitReached {
@@ -887,13 +887,13 @@ func (c *smCase) doOp() {
 		c.collect(fe, cf)
 	case k < 96: // MAX_STREAMS
 		uni := r.Bool()
-		t := b2i(uni)
+		t := smB2i(uni)
 		n := c.peerMax[t] + r.Pick(-1, 0, 1, 1, 1, 2, 2, 3, 5)
 		if r.Chance(1, 12) {
 			n = r.Pick(0, 1, 1<<60, 1<<60-1)
 		}
 		if f != nil {
-			uni, t = f.uni, b2i(f.uni)
+			uni, t = f.uni, smB2i(f.uni)
 			n = c.peerMax[t] + f.n
 		}
 		if n < 0 {
@@ -963,7 +963,7 @@ func (c *smCase) monFrameDispatch(id, got int64, e int, recv bool) {
 	uni := id%4 >= 2
 	byClient := id%2 == 0
 	local := byClient == c.client
-	t := b2i(uni)
+	t := smB2i(uni)
 	kind := "send"
 	if recv {
 		kind = "receive"
